@@ -8,11 +8,11 @@ EXPLANATION = (
     "PROVED (SMT, unbounded): the local clauses L1 (edge endpoints carry equal lineage ids), L2 (distinct roots carry distinct ids), "
     "'every node has a lineage id' and 'lineage ids <= max lineage id' are preserved by every user-action constructor whenever the "
     "lineage feature is enabled. Local => global ('same id iff connected') is bridge lemma M1 (Lean). The relabel walk body is PROVED against its contract (lineage rewritten for exactly the nodes below start, iff the lineage feature is enabled). "
-    "BOUNDED STAND-INS (not proofs): lookup bookkeeping of the walk and bulk assignment.")
+    "BOUNDED STAND-IN (not a proof): bulk assignment.")
 ASSUMPTIONS = ["the lineage feature is enabled", "a new node's lineage is derived by UserAddNode (attributes contain time and track id, not a lineage id)",
                "undo/redo: through C01 and C02"]
 LEMMAS = ["M1 (L1&L2 <=> same lineage id iff connected)", "M3 facts of the descendant closure"]
-NOT_UNDER_CONTRACT = ["TrackAnnotator._update_tracklet_bookkeeping/_update_lineage_bookkeeping called by the walk (bounded stand-in; they do not touch node attributes)", "TrackAnnotator._assign_lineage_ids (bounded stand-in)"]
+NOT_UNDER_CONTRACT = ["TrackAnnotator._assign_lineage_ids (bounded stand-in)"]
 
 
 def units(tier):
